@@ -52,4 +52,18 @@ for site, p, lp in iter_cells():
     judged += 1
     v = judge(prop, p, r, lambda t: parse(t).rebuild())
     if v: failing.append(site + [v, p, r])
-print(json.dumps({'cells': cells, 'judged': judged, 'failing': failing}))
+# two comments at once: reported only when each of the two comments alone passes (otherwise the single cell already speaks for it)
+single_bad = {tuple(f[:4]) for f in failing}
+pair_ctx = ('top', 'bindval') if len(sys.argv) > 2 and sys.argv[2] == 'thorough' else ('top',)
+pairs = 0
+for site, p, lp, (s1, s2) in iter_pair_cells(pair_ctx):
+    if tuple(s1) in single_bad or tuple(s2) in single_bad: continue
+    cells += 1; pairs += 1
+    try: r = parse(p).rebuild()
+    except Exception as e:
+        if prop == 'C01': judged += 1; failing.append(site + ['parse/rebuild raises %s on valid input' % type(e).__name__, p, ''])
+        continue
+    judged += 1
+    v = judge(prop, p, r, lambda t: parse(t).rebuild())
+    if v: failing.append(site + [v, p, r])
+print(json.dumps({'cells': cells, 'judged': judged, 'pair_cells': pairs, 'failing': failing}))
